@@ -458,6 +458,18 @@ List gen_valid_list(vh::Reader &rd, size_t n)
 }
 
 // a strictly valid key / value that is not the everyday "pool key = digit" member
+// State carried from one operation to the next: the VALUE an earlier Set was given comes back as the KEY of the
+// next operation (a value such as "Prod East" is a valid value and an invalid key).  Decided from the generated key
+// itself, no stream byte is read.  (Seeded C14-m10: one memo of "the last validated string" shared by the key and
+// the value grammar.)
+void maybe_previous_value_as_key(GenKey &k, const std::string &previous_value)
+{
+  if (previous_value.empty() || (k.key.size() & 3) != 0)
+    return;
+  k.key = previous_value;
+  k.cls = "previous-value-as-key";
+}
+
 GenKey gen_boundary_key(vh::Reader &rd)
 {
   switch (rd.weighted({2, 3, 2, 3}))
@@ -613,6 +625,7 @@ C14_TARGET(ts_ops, 3,
     return v;
   };
 
+  std::string previous_value;  // the value given to the most recent Set of this case
   unsigned nops = 1 + rd.below(12);
   for (unsigned op = 0; op < nops && (op == 0 || !rd.exhausted()); ++op)
   {
@@ -635,6 +648,7 @@ C14_TARGET(ts_ops, 3,
     {
       GenKey k = gen_key(rd);
       GenVal v = gen_val(rd);
+      maybe_previous_value_as_key(k, previous_value);
       // prefer keys that are present
       bool alias_key = false, alias_val = false;
       size_t key_at = 0, val_at = 0;
@@ -668,6 +682,7 @@ C14_TARGET(ts_ops, 3,
           vview = own[val_at].second;
       }
       auto res = recv->Set(kview, vview);
+      previous_value = v.val;
       std::fill(kbuf.begin(), kbuf.end(), '\xdd');
       std::fill(vbuf.begin(), vbuf.end(), '\xdd');
       c.note("Set#" + std::to_string(ri) + "(" + vh::show(k.key.substr(0, 24)) + "[" + k.cls + "," +
@@ -737,6 +752,7 @@ C14_TARGET(ts_ops, 3,
     else if (kind == 1)
     {
       GenKey k = gen_key(rd);
+      maybe_previous_value_as_key(k, previous_value);
       bool alias_key = false;
       size_t key_at  = 0;
       if (!m.empty() && rd.chance(60))
@@ -781,6 +797,7 @@ C14_TARGET(ts_ops, 3,
     else
     {
       GenKey k = gen_key(rd);
+      maybe_previous_value_as_key(k, previous_value);
       if (!m.empty() && rd.chance(60))
       {
         k.key = m[pick_present(m)].first;
